@@ -14,6 +14,7 @@ import Driver.Timeout
 import Driver.Files
 import Driver.Parse
 import Driver.Bridge
+import Driver.Entry
 
 open Lean Driver
 
@@ -35,6 +36,10 @@ def dispatch (op : String) (inp out : Json) : Json :=
   | "lookuparg" => runLookupOp inp out
   | "bridge" => runBridgeOp inp out
   | "ccomplete" => runCCompleteOp inp out
+  | "entry" => runEntryOp inp out
+  | "compline" => runComplineOp inp out
+  | "trimdesc" => runTrimdescOp inp out
+  | "abs" => runAbsOp inp out
   | "timeoutrace" => runTimeoutOp inp out
   | _ => Json.mkObj [("same", Json.bool false), ("diff", Json.str s!"unknown op {op}"), ("fails", Json.arr #[])]
 
